@@ -146,7 +146,9 @@ class RRELNavigation(RRELBase):
     def __repr__(self):
         if self.fixed_name is not None:
             assert not self.consume_name
-            return "'" + self.fixed_name + "'~" + self.name
+            # use the quote that does not occur in the name (names are not unescaped)
+            quote = '"' if "'" in self.fixed_name else "'"
+            return quote + self.fixed_name + quote + "~" + self.name
         else:
             return self.name if self.consume_name else "~" + self.name
 
